@@ -20,8 +20,8 @@ const hmod = 1000003
 type out = nodes.NodeOutput[int]
 
 type meta struct {
-	salt  int
-	fail  bool // the processor returns an error when its hash is divisible by 3
+	salt   int
+	fail   bool // the processor returns an error when its hash is divisible by 3
 	panics bool // the processor panics when its hash is divisible by 5
 	execs  int  // number of calls of Process() that returned (with or without an error)
 	fails  int  // number of executions that returned an error
